@@ -30,17 +30,26 @@ Theorem C13_reversible_set :
   [21; 22; 23; 24; 26; 27; 28; 29; 31; 32; 33; 34; 36; 37; 38; 39; 41; 42; 43; 44; 46; 47; 48; 49; 51; 52; 55; 56].
 Proof. exact reversible_set. Qed.
 
-(* Every valid batch of reversible codes, of any size and mix: amounts, account
-   tags and traces unchanged, codes flipped within the account type, control
-   totals swapped, header and control service class = class of the new
-   directions, description REVERSAL, effective date the requested one, and the
-   result passes the modelled batch validation (class/direction consistency,
-   control totals = re-computed totals, standard codes, amount rule). *)
-Theorem C13_batch : forall d b,
-  rbatch_valid RT b = true -> all_reversible RT b = true ->
+(* Every valid batch of reversible codes, of any size and mix, that is not described
+   PRENOTE: amounts, account tags and traces unchanged, codes flipped within the account
+   type, control totals swapped, header and control service class = class of the new
+   directions, description REVERSAL, effective date the requested one, and the result
+   passes the modelled batch validation (class/direction consistency, control totals =
+   re-computed totals, standard codes, amount rule of ValidAmountForCodes). *)
+Theorem C13_batch_partial : forall d b,
+  rbatch_valid RT b = true -> all_reversible RT b = true -> is_prenote_desc (rb_desc b) = false ->
   batch_reversed RT d b (reversal_batch RT d b).
 Proof. exact reversal_batch_ok. Qed.
-Print Assumptions C13_batch.
+Print Assumptions C13_batch_partial.
+
+(* without the last hypothesis the statement is false of the code as it stands (known finding
+   reversal:prenote-description-zero-amount): a valid credits-only batch described PRENOTE with
+   a zero-amount code 22 is reversed into a batch the amount rule rejects *)
+Theorem C13_batch_refuted :
+  rbatch_valid RT prenote_batch = true /\ all_reversible RT prenote_batch = true
+  /\ rbatch_valid RT (reversal_batch RT [50]%N prenote_batch) = false.
+Proof. exact reversal_prenote_description. Qed.
+Print Assumptions C13_batch_refuted.
 
 Theorem C13_description : reversal_description = [82; 69; 86; 69; 82; 83; 65; 76]%N. (* "REVERSAL" *)
 Proof. exact (proj1 (bytes_eqb_eq _ _) reversal_description_ok). Qed.
@@ -50,14 +59,15 @@ Theorem C13_twice : forall d1 d2 b, all_reversible RT b = true ->
 Proof. exact reversal_twice. Qed.
 Print Assumptions C13_twice.
 
-(* Every valid file of such batches: Reversal succeeds, every batch is reversed
+(* Every valid file of such batches (file_reversible: reversible codes only, no batch described
+   PRENOTE): Reversal succeeds, every batch is reversed
    as above, file date/time are the requested ones, file totals are swapped and
    the result passes the modelled file validation. *)
-Theorem C13_file : forall d t f,
+Theorem C13_file_partial : forall d t f,
   rfile_valid RT f = true -> file_reversible RT f = true ->
   exists f', reversal_file RT d t f = ROk f' /\ file_reversed RT d t f f'.
 Proof. exact reversal_file_ok. Qed.
-Print Assumptions C13_file.
+Print Assumptions C13_file_partial.
 
 (* why 53 and 54 are excluded: the switch sends them to 58 / 59, not transaction codes *)
 Theorem C13_loan_prenote_excluded :
